@@ -1,6 +1,8 @@
 package fsm
 
 import (
+	"bytes"
+	"fmt"
 	"github.com/canopy-network/canopy/lib"
 	"github.com/canopy-network/canopy/lib/crypto"
 	"google.golang.org/protobuf/types/known/anypb"
@@ -123,6 +125,10 @@ func (s *StateMachine) CheckTx(transaction []byte, txHash string, batchVerifier 
 	if err = tx.CheckBasic(); err != nil {
 		return
 	}
+	// only accept the canonical byte representation of the transaction
+	if err = checkCanonicalTx(transaction, tx); err != nil {
+		return
+	}
 	if s.Metrics != nil {
 		s.Metrics.CheckTxDecodeTime.Observe(time.Since(decodeStartTime).Seconds())
 	}
@@ -202,6 +208,25 @@ func (s *StateMachine) CheckTx(transaction []byte, txHash string, batchVerifier 
 		recipient: recipient,
 		plugin:    plugin,
 	}, nil
+}
+
+// checkCanonicalTx() ensures the raw transaction bytes are the canonical encoding of the decoded transaction
+// NOTE: replay protection and indexing identify a transaction by the hash of its raw bytes while the signature covers
+// the decoded content (without the signature). Without this check any re-encoding of an included transaction - explicit
+// default fields, re-ordered fields, another byte form of the same public key - has a fresh hash and would execute again
+func checkCanonicalTx(raw []byte, tx *lib.Transaction) lib.ErrorI {
+	canonical, err := lib.Marshal(tx)
+	if err != nil {
+		return err
+	}
+	if !bytes.Equal(raw, canonical) {
+		return lib.ErrUnmarshal(fmt.Errorf("non-canonical transaction encoding"))
+	}
+	// the public key is not part of the sign bytes, so it must be in its one canonical form too
+	if publicKey, e := crypto.NewPublicKeyFromBytes(tx.Signature.PublicKey); e == nil && !bytes.Equal(publicKey.Bytes(), tx.Signature.PublicKey) {
+		return ErrInvalidPublicKey(fmt.Errorf("non-canonical public key encoding"))
+	}
+	return nil
 }
 
 // CheckTxResult is the result object from CheckTx()
